@@ -12,6 +12,15 @@ def _plain(v):
     return (type(v).__name__, repr(v))
 
 
+_STD_TAG_FIELDS = {"name", "attrs", "children", "add_ws", "prev_displayhook"}
+
+
+def _extras(x, std):
+    """instance attributes a user subclass added (by name and repr)"""
+    d = getattr(x, "__dict__", {})
+    return tuple(sorted((k, repr(v)) for k, v in d.items() if k not in std))
+
+
 def snap(x: Any):
     """Structural snapshot: everything the public API exposes, recursively."""
     from htmltools import HTML, HTMLDependency, HTMLDocument, MetadataNode, Tag, TagList
@@ -23,9 +32,9 @@ def snap(x: Any):
     if isinstance(x, Tag):
         return ("Tag", type(x).__name__, x.name, x.add_ws,
                 tuple((k, type(v).__name__, str(v)) for k, v in x.attrs.items()),
-                snap(x.children))
+                snap(x.children), type(x.attrs).__name__, _extras(x, _STD_TAG_FIELDS))
     if isinstance(x, TagList):
-        return ("TagList",) + tuple(snap(c) for c in x)
+        return ("TagList", type(x).__name__, _extras(x, {"data"})) + tuple(snap(c) for c in x)
     if isinstance(x, HTML):
         return ("HTML", str(x))
     if isinstance(x, str):
